@@ -18,11 +18,12 @@ PROPS['C35'] = dict(
     trusted=HIST_TRUST, technique='Coq proof (simulation: erasing feature-added data commutes with every step; induction over histories) + differential run of the same history under sampled/all 48 feature combinations on the real stack',
     level_text='Unbounded theorem: for every feature set and history, erasing moves, metadata histories and effective volumes from the reached state gives exactly the state of the featureless ledger on the same history, and every operation returns the same answer; no move is recorded without MOVES_HISTORY. Tie: model under f0 = real stack under the minimal feature set; monitor compares the core across feature combinations on the real stack, hash presence, and that feature-dependent reads are rejected or equal to the all-features answer.',
     level_note=HIST_NOTE + ' HASH_LOGS is not part of Core.v (hashes are covered under C09/C10); its three values are exercised by the tie.')
-ledger_prop('C13', ['C13_at_most_once', 'C13_replay_returns_original', 'C13_different_input_rejected', 'C13_failed_write_keeps_key_free'],
+ledger_prop('C13', ['C13_at_most_once', 'C13_replay_returns_original', 'C13_different_input_rejected', 'C13_failed_write_keeps_key_free',
+                    'C13_script_replay_returns_original', 'C13_script_merged_request_rejected'],
             'Coq proof (invariant: at most one log per key; logs only grow, so the stored log is found after any continuation; case analysis of the step) + differential run with key-heavy histories + idempotency monitor',
             'Unbounded theorems (sequential executions): after any history at most one log carries a given key; once a write committed under a key, repeating it with the same input after ANY further history returns the original log and transaction id flagged as a hit and changes nothing, even if re-executing it would fail; a different input under the key fails with the idempotency-input error and no effect; failed and dry-run writes do not consume the key. Tie: model = real stack on histories where half of the operations carry keys and a quarter are replays with same or altered input (all write kinds, reverts with metadata included); monitor checks hit / error class / unchanged snapshot / one log per key on the implementation.',
             'Concurrent racers sharing a key are examined by the schedule harness (suspect S-13 in DESIGN.md), not by these theorems. The idempotency fingerprint is modelled as equality of the submitted input (the real code hashes the input after the operation ran; an operation that mutates its own input breaks the correspondence).',
-            quick=200, thorough=4000, extra=['-profile', 'ik'])
+            quick=200, thorough=4000, extra=['-profile', 'ik', '-scripts', '30'])
 
 READS_RULE = ('each case: one history generated online on the real stack (as for the history tie, 7 feature sets, back/future-dated timestamps), then 24 probes at the final state: '
               'volumes with PIT and/or OOT in effective or insertion mode, aggregated balances at a PIT (both modes, optionally restricted to one account), accounts at a PIT '
@@ -40,14 +41,14 @@ PROPS['C17']['ties'].append(dict(name='TIE-D reads', vh='reads', model='reads', 
 PROPS['C17']['explanation'] += ' Point-in-time metadata reads (accounts and transactions, all four feature combinations) are compared with the read-side model (Ledger/Reads.v: ahist_at / thist_at) and with a monitor replaying the metadata writes accepted up to t. Two defects found this way were repaired by fix: commits (known_findings.json: KF-C17-*).'
 
 # TIE-F: fault injection at statement positions (driver error, transient deadlock, transient idempotency-key race) incl. dry runs
-def fault_tie(pid, quick=120, thorough=3000):
-    return dict(name='TIE-F faults', vh='faultops', model=None, n=dict(quick=quick, thorough=thorough), args=dict(all=['-monitors', pid]), kinds=[pid], case_head='faultops')
+def fault_tie(pid, quick=120, thorough=3000, extra=None):
+    return dict(name='TIE-F faults', vh='faultops', model=None, n=dict(quick=quick, thorough=thorough), args=dict(all=['-monitors', pid] + (extra or [])), kinds=[pid], case_head='faultops')
 FAULT_NOTE = (' TIE-F: for every write kind (30% dry runs) after a random prefix history, the operation is re-run on a fresh real stack with a fault at a random statement position: '
               'a driver error, a transient deadlock (SQLSTATE 40P01 once: forgeLog rolls back and retries through forgeLogRetry/runTx) or a transient idempotency-key unique violation on '
               'the log insert (same retry path); the monitor requires an unchanged complete snapshot after every failed or dry-run operation (retried or not), the fault-free outcome after a '
               'transient fault, and exactly one new log iff the operation really succeeded. This tie has no model side (the model runs each operation in one atomic step); it is what ties '
               'the structural rollback of Ledger/Core.v to the code\'s use of transaction handles.')
-PROPS['C07']['ties'].append(fault_tie('C07'))
+PROPS['C07']['ties'].append(fault_tie('C07', extra=['-scripts', '30']))   # script creates under transient faults: the retry re-runs createTransaction on the same Parameters value
 PROPS['C07']['explanation'] += FAULT_NOTE
 PROPS['C08']['ties'].append(fault_tie('C08'))
 PROPS['C08']['explanation'] += FAULT_NOTE
@@ -62,7 +63,7 @@ HTTP_NOTE = (' TIE-H: the same generated histories are also issued as v2 HTTP re
              'equal the model\'s (results projected on what an HTTP answer shows: transaction id, hit flag, status:errorCode). Monitors without model: the API reads equal the controller '
              'reads after every operation; every page honours the requested page size; the transaction a write answers with equals the one listed right after, and its '
              'preCommitVolumes are post-commit minus own postings.')
-for _pid, _extra in [('C02', None), ('C03', None), ('C13', ['-profile', 'ik']), ('C15', None), ('C17', None), ('C25', ['-profile', 'postings'])]:
+for _pid, _extra in [('C02', None), ('C03', None), ('C13', ['-profile', 'ik', '-scripts', '30']), ('C15', None), ('C17', ['-scripts', '30']), ('C25', ['-profile', 'postings'])]:
     PROPS[_pid]['ties'].append(http_tie(_pid, extra=_extra))
     PROPS[_pid]['explanation'] += HTTP_NOTE
 
@@ -71,6 +72,10 @@ def http1_tie(pid, quick=120, thorough=2500, extra=None):
     return dict(name='TIE-H http v1', vh='hist', model='histh1', n=dict(quick=quick, thorough=thorough), args=dict(all=args), kinds=[pid], case_head='histh1')
 HTTP1_NOTE = (' TIE-H v1: the same histories restricted to what the v1 API can express (no force/accountMetadata on create, no atEffectiveDate/metadata on revert; preview= spellings for dry runs, '
               'disableChecks for forced reverts) are issued as v1 requests (internal/api/v1), their one-element-array answers decoded (txid, postings digit for digit), the state read back through v2.')
-for _pid, _extra in [('C02', None), ('C13', ['-profile', 'ik']), ('C15', None), ('C25', ['-profile', 'postings'])]:
+for _pid, _extra in [('C02', None), ('C13', ['-profile', 'ik', '-scripts', '30']), ('C15', None), ('C25', ['-profile', 'postings'])]:
     PROPS[_pid]['ties'].append(http1_tie(_pid, extra=_extra))
     PROPS[_pid]['explanation'] += HTTP1_NOTE
+
+# script creates (metadata set by the script AND at creation): on for the hist ties of C07, C13, C17 only (-scripts 30)
+for _pid in ('C07', 'C13', 'C17'):
+    PROPS[_pid]['explanation'] += SCRIPTS_NOTE
